@@ -136,3 +136,30 @@ Fixpoint req_seq (tag rl : N) (n : nat) : list (list N) :=
   | O => []
   | S k => in_request (next_tag tag) rl :: req_seq (next_tag tag) rl k
   end.
+
+(* read_raw(num) with num > 0 (caller limits the size).  The exchanges that take place between a
+   host limited to num bytes and a device holding the chunks cs: the host asks for
+   min(max_transfer_size, bytes still wanted) and stops as soon as it has num bytes (or at EOM). *)
+Fixpoint served (num mts : N) (cs : list chunk) : list (N * chunk) :=
+  match cs with
+  | [] => []
+  | c :: rest =>
+      (N.min mts num, c) ::
+      (if num <=? len (chunk_data c) then [] else served (num - len (chunk_data c)) mts rest)
+  end.
+
+Fixpoint reqs_of (tag : N) (l : list (N * chunk)) : list (list N) :=
+  match l with
+  | [] => []
+  | (w, _) :: r => in_request (next_tag tag) w :: reqs_of (next_tag tag) r
+  end.
+
+(* ---- vendor quirks (Instrument._handle_vendor_quirks), as far as they concern write_raw ------- *)
+(* returns (max_transfer_size, advantest_quirk, rigol_quirk, rigol_quirk_ieee_block) *)
+Definition vendor_quirks (id_vendor id_product : N) : N * bool * bool * bool :=
+  let adv := id_vendor =? 4916 in                                         (* 0x1334 Advantest/ADCMT *)
+  let rigol := (id_vendor =? 6833) && ((id_product =? 1230) || (id_product =? 1416)) in   (* 0x1ab1; 0x04ce, 0x0588 *)
+  (if adv then 63 else 1048576, adv, rigol, rigol && (id_product =? 1230)).
+
+Definition write_raw_quirk (id_vendor id_product : N) (data : list N) (tag : N) :=
+  let '(mts, _, _, _) := vendor_quirks id_vendor id_product in write_raw data (N.to_nat mts) tag.
